@@ -5,6 +5,7 @@
 #include "isal.hpp"
 #include "json.hpp"
 #include "pbt.hpp"
+#include "periodic.hpp"
 
 namespace mh {
 
@@ -64,12 +65,13 @@ struct Case {
         std::string fam;
         uint64_t seed = 1, murmur_seed = 0;
         int prefill = 0;
+        int giant = 0; // 1 = the stream is the periodic giant buffer (pieces up to 2^32-1 bytes, total < 2^32)
         std::vector<Piece> pieces;
 };
 static inline J to_json(const Case &c)
 {
         J j = J::obj();
-        j.set("fam", c.fam).set("seed", (unsigned long long) c.seed).set("murmur_seed", (unsigned long long) c.murmur_seed).set("prefill", c.prefill);
+        j.set("fam", c.fam).set("seed", (unsigned long long) c.seed).set("murmur_seed", (unsigned long long) c.murmur_seed).set("prefill", c.prefill).set("giant", c.giant);
         J a = J::arr();
         for (auto &p : c.pieces) {
                 J o = J::obj();
@@ -86,6 +88,7 @@ static inline Case from_json(const J &j)
         c.seed = j.unum("seed", 1);
         c.murmur_seed = j.unum("murmur_seed", 0);
         c.prefill = j.num("prefill", 0);
+        c.giant = j.num("giant", 0);
         for (auto &o : j.at("pieces").a) {
                 Piece p;
                 p.len = o.unum("len", 0);
@@ -109,10 +112,31 @@ static inline uint64_t gen_total(uint64_t big)
         default: return rng<uint64_t>(1, big);
         }
 }
-static inline Case gen_case(const Fam &f, uint64_t big)
+static inline Case gen_case(const Fam &f, uint64_t big, long giant_ppm = 0)
 {
         using namespace pbt;
         Case c;
+        if (giant_ppm > 0 && rng<long>(0, 999999) < giant_ppm) {
+                // a stream just below 2^32 bytes in 1..4 update calls (single updates up to 2^32-1 bytes)
+                c.fam = f.label();
+                c.seed = 1;
+                c.giant = 1;
+                c.prefill = rng<int>(0, 255);
+                if (f.kind == MH_MURMUR) c.murmur_seed = rng64(0, UINT64_MAX);
+                uint64_t total = 0xffffffffull - pick<uint64_t>({ 0, 1, 7, 8, 9, 15, 16, 1023, 1024, 1025 }) - (coin(1, 3) ? rng<uint64_t>(0, 70000) : 0);
+                int k = rng<int>(1, 4);
+                uint64_t left = total;
+                for (int i = 0; i < k - 1; i++) {
+                        Piece p;
+                        p.len = coin() ? rng<uint64_t>(0, 3000) : rng<uint64_t>(0, left);
+                        left -= p.len;
+                        c.pieces.push_back(p);
+                }
+                Piece last;
+                last.len = left;
+                c.pieces.push_back(last);
+                return c;
+        }
         c.fam = f.label();
         c.seed = rng64(1, UINT64_MAX - 8);
         c.prefill = rng<int>(0, 255);
@@ -186,9 +210,9 @@ static inline bool execute(const Case &c, const Fam &f, pbt::Ctx &ctx, Stats &st
         uint64_t st_rng = c.seed | 1, off = 0;
         for (size_t i = 0; i < c.pieces.size(); i++) {
                 const Piece &p = c.pieces[i];
-                uint8_t *b = A.alloc("update-buffer", p.len, 1, (guard::Place) p.place, -1, p.shift);
+                uint8_t *b = c.giant ? periodic::stream() + off : A.alloc("update-buffer", p.len, 1, (guard::Place) p.place, -1, p.shift);
                 // stream bytes
-                {
+                if (!c.giant) {
                         uint64_t x = st_rng;
                         size_t k = 0;
                         while (k < p.len) {
@@ -198,7 +222,7 @@ static inline bool execute(const Case &c, const Fam &f, pbt::Ctx &ctx, Stats &st
                         }
                         st_rng = x;
                 }
-                A.set_readonly(b);
+                if (!c.giant) A.set_readonly(b);
                 R.update(b, p.len);
                 if (f.kind == MH_MURMUR) MR.update(b, p.len);
                 uint64_t carried = off % 1024;
@@ -212,7 +236,7 @@ static inline bool execute(const Case &c, const Fam &f, pbt::Ctx &ctx, Stats &st
                         return !failx("fault-update", "fault in update " + std::to_string(i) + " (len " + std::to_string(p.len) + ", stream offset " + std::to_string(off) + "): " + fi.where);
                 }
                 if (rc) return !failx("rc", "update returned " + std::to_string(rc));
-                A.release(b);
+                if (!c.giant) A.release(b);
                 off += p.len;
         }
         st.total = off;
